@@ -33,6 +33,8 @@ enum Step {
 	ResumeReader(usize),
 	/// a burst of calls with bulky replies: together with a paused reader it fills the server's write path
 	Clog(usize),
+	/// an ordinary call that takes 300 ms: a stop that lands meanwhile has to wait for it while the connection drains
+	SlowCall(usize),
 }
 
 #[derive(Debug, Clone)]
@@ -122,6 +124,7 @@ async fn scenario(prop: u32) {
 			22..=25 => Step::Unsubscribe(c, rt::draw("unsub_kind", 6).min(3)),
 			27 if stream_cap > 0 => Step::PauseReader(c),
 			28 if stream_cap > 0 => Step::ResumeReader(c),
+			29 => Step::SlowCall(c),
 			26 if !sweep_base && !faulted && i >= 3 => {
 				faulted = true;
 				match rt::draw("fault", 3) {
@@ -195,6 +198,15 @@ async fn scenario(prop: u32) {
 	let mut payload = 1000u64;
 	let mut k = 0u64;
 	let mut stop_stamp: Option<u64> = None;
+	// the instant at which the server reports that it has stopped
+	let stopped_stamp: Arc<Mutex<Option<u64>>> = Arc::default();
+	if let Some(h) = world.server_handle.clone() {
+		let ss = stopped_stamp.clone();
+		rt::spawn("stopped-watcher", async move {
+			h.stopped().await;
+			*ss.lock().unwrap() = Some(rt::event("stopped-resolved", ""));
+		});
+	}
 	for step in &steps {
 		k += 1;
 		match step {
@@ -274,7 +286,15 @@ async fn scenario(prop: u32) {
 						rt::probe("fault.server_stop");
 						let _ = h.stop();
 						stop_stamp = Some(st);
+						world.drop_stop_handle();
 					}
+				}
+			}
+			Step::SlowCall(c) => {
+				if let Some(tx) = conns[*c].tx.as_mut() {
+					rt::event("dir-slow-call", format!("c{c}"));
+					let msg = format!("{{\"jsonrpc\":\"2.0\",\"id\":\"slow{k}\",\"method\":\"slow\",\"params\":[{k}]}}");
+					let _ = tokio::time::timeout(Duration::from_millis(200), world::ws_send(tx, msg.as_bytes(), false)).await;
 				}
 			}
 			Step::Settle => tokio::time::sleep(Duration::from_millis(rt::draw_range("settle", 1, 30) as u64)).await,
@@ -325,7 +345,7 @@ async fn scenario(prop: u32) {
 	let conn_gone: Vec<Option<u64>> = conns.iter().map(|c| c.ctl.server_dropped()).collect();
 	let reg: Vec<Arc<SubCtl>> = world.subs.lock().unwrap().clone();
 	let log = world.log.lock().unwrap();
-	let view = View { frames: &frames, conn_gone: &conn_gone, peer_closed: conns.iter().map(|c| c.peer_closed).collect(), reg: &reg, mw: &log.mw, sub_calls: &sub_calls, unsub_calls: &unsub_calls, cap, stop_stamp, final_cmd_stamp, entry };
+	let view = View { frames: &frames, conn_gone: &conn_gone, peer_closed: conns.iter().map(|c| c.peer_closed).collect(), reg: &reg, mw: &log.mw, sub_calls: &sub_calls, unsub_calls: &unsub_calls, cap, stop_stamp, stopped_stamp: *stopped_stamp.lock().unwrap(), final_cmd_stamp, entry };
 	if prop == 4 {
 		check_c04(&view);
 	} else {
@@ -349,6 +369,7 @@ struct View<'a> {
 	unsub_calls: &'a [UnsubCall],
 	cap: u32,
 	stop_stamp: Option<u64>,
+	stopped_stamp: Option<u64>,
 	final_cmd_stamp: u64,
 	entry: Entry,
 }
@@ -454,6 +475,12 @@ fn check_c04(v: &View) {
 			if let Some(g) = v.conn_gone[ci] {
 				if close_at.is_none_or(|c| g < c.0) {
 					close_at = Some((g, if v.stop_stamp.is_some_and(|s| s < g) { "server-stop" } else { "connection-end" }));
+				}
+			}
+			// the server reported that it has stopped: nothing is open any more
+			if let Some(t) = v.stopped_stamp {
+				if close_at.is_none_or(|c| t < c.0) {
+					close_at = Some((t, "server-stopped"));
 				}
 			}
 			if let Some((t, why)) = close_at {
